@@ -10,6 +10,7 @@ import (
 	"time"
 
 	"verifharness/envx"
+	"verifharness/gw"
 	"verifharness/tsgu"
 )
 
@@ -30,6 +31,10 @@ type MtScript struct {
 	// Pairing: legacy connection pairs under identifiers of several forms; an inbound connection must pair with the
 	// outbound connection that carries the same identifier and with no other
 	Pairing bool `json:"pairing,omitempty"`
+	// Overlap: a step of one tunnel is held between "the answer has been built" and "the answer is put on the transport"
+	// (gate at the entry of the writer section) while the next scheduled step of ANOTHER tunnel is handled completely;
+	// then it is let go.  Every tunnel must still get the answer to its own request (type, status, echoed fields).
+	Overlap bool `json:"overlap,omitempty"`
 }
 
 type mtTunnel struct {
@@ -97,7 +102,12 @@ func (i *Inst) RunMulti(s *MtScript, tw *TraceWriter, rng *rand.Rand) error {
 		}
 	}
 	var firstErr error
-	for _, ti := range s.Schedule {
+	skipNext := false
+	for si, ti := range s.Schedule {
+		if skipNext {
+			skipNext = false // this entry was executed as the overlapped partner of the previous one
+			continue
+		}
 		if ti < 0 || ti >= len(ts) {
 			continue
 		}
@@ -149,7 +159,70 @@ func (i *Inst) RunMulti(s *MtScript, tw *TraceWriter, rng *rand.Rand) error {
 				before[oj] = o.bc.Len()
 			}
 		}
-		r, err := m.ps.Step(m.next - 1)
+		var r Reaction
+		var err error
+		var overlapped *mtTunnel
+		if y, yk := overlapPartner(s, ts, si, ti); y != nil && kind != "idle" && !m.ps.T.Exited && !(kind == "chan" && yk == "chan") {
+			overlapped = y
+			// hold this tunnel's answer at the entry of the writer section, handle the other tunnel's step, let go
+			p := i.P
+			gmark := p.Mark()
+			if gerr := p.Gate("tun.write.begin", m.ps.T.Cid, "loop"); gerr != nil {
+				return gerr
+			}
+			type res struct {
+				r   Reaction
+				err error
+			}
+			done := make(chan res, 1)
+			go func(k int) { rr, e := m.ps.Step(k); done <- res{rr, e} }(m.next - 1)
+			held := false
+			var early *res
+			deadline := time.Now().Add(3 * time.Second)
+			for !held && early == nil && time.Now().Before(deadline) {
+				select {
+				case x := <-done:
+					early = &x // the step produced no answer (or ended the tunnel before one): nothing to hold
+				default:
+					if idx, _ := p.Wait(gmark, 20*time.Millisecond, func(e gw.Event) bool { return e.Cid == m.ps.T.Cid && e.Pt == "tun.write.begin" && e.Gated }); idx >= 0 {
+						held = true
+					}
+				}
+			}
+			if held && y.next < len(y.ps.S.Steps) && !y.ps.T.Exited {
+				y.next++
+				skipNext = true
+				if yk == "chan" {
+					y.n0 = y.backend.NConns()
+				}
+				ry, yerr := y.ps.Step(y.next - 1)
+				if yerr != nil && firstErr == nil {
+					firstErr = yerr
+				}
+				if yk == "chan" && ry.Conn && y.backend.WaitConn(y.n0+1, 3*time.Second) {
+					y.bc = y.backend.Conn(y.n0)
+				}
+				if yk == "data" && y.bc != nil {
+					if ry.FwdBytes > 0 {
+						y.bc.WaitRecv(y.hostPos+ry.FwdBytes, 3*time.Second)
+					}
+					y.hostPos = y.bc.Len()
+				}
+			}
+			p.Release("tun.write.begin", m.ps.T.Cid, "loop", 4)
+			p.Ungate("tun.write.begin", m.ps.T.Cid, "loop")
+			if early != nil {
+				r, err = early.r, early.err
+			} else {
+				x := <-done
+				r, err = x.r, x.err
+			}
+			if firstErr != nil {
+				break
+			}
+		} else {
+			r, err = m.ps.Step(m.next - 1)
+		}
 		if err != nil {
 			if firstErr == nil {
 				firstErr = err
@@ -172,7 +245,7 @@ func (i *Inst) RunMulti(s *MtScript, tw *TraceWriter, rng *rand.Rand) error {
 			foreign := false
 			time.Sleep(time.Millisecond)
 			for oj, o := range ts {
-				if oj != ti && o.bc != nil && o.bc.Len() != before[oj] {
+				if oj != ti && o != overlapped && o.bc != nil && o.bc.Len() != before[oj] {
 					foreign = true
 				}
 			}
@@ -190,6 +263,27 @@ func (i *Inst) RunMulti(s *MtScript, tw *TraceWriter, rng *rand.Rand) error {
 		m.ps = nil
 	}
 	return firstErr
+}
+
+// overlapPartner: in an Overlap script, the tunnel of the next schedule entry when it is another tunnel whose next step is
+// a packet (not a host-side action), else nil.
+func overlapPartner(s *MtScript, ts []*mtTunnel, si, ti int) (*mtTunnel, string) {
+	if !s.Overlap || si+1 >= len(s.Schedule) {
+		return nil, ""
+	}
+	tj := s.Schedule[si+1]
+	if tj == ti || tj < 0 || tj >= len(ts) {
+		return nil, ""
+	}
+	y := ts[tj]
+	if y.next >= len(y.ps.S.Steps) {
+		return nil, ""
+	}
+	k := str(y.ps.S.Steps[y.next], "k", "")
+	if k == "hostsend" || k == "idle" {
+		return nil, ""
+	}
+	return y, k
 }
 
 // stream is a per-tunnel pseudo random byte stream: no two tunnels share content.
